@@ -75,13 +75,24 @@ theorem checkFrom_of (rc : Nat) (consts : List CKind) (l : List Ann) :
       obtain ⟨b', hb', hbd⟩ := hlook p hp
       simp [hb', hbd]
 
-theorem linOk_of (l : List Ann) (hd : ∀ a ∈ l, a.d = some Z)
-    (hl : ∀ a ∈ l, ∀ s t, linStep a.ins.op s t = some (s, t)) : linOk 0 0 l = true := by
+theorem linLex_of (l : List Ann) (hd : ∀ a ∈ l, a.d = some Z)
+    (hl : ∀ a ∈ l, ∀ s t, linStep a.ins.op s t = some (s, t)) :
+    ∀ run, (linLex 0 0 run l).isSome = true := by
   induction l with
-  | nil => rfl
+  | nil => intro run; simp [linLex]
   | cons a rest ih =>
-    simp only [linOk, hd a (by simp), hl a (by simp) 0 0, Bool.and_eq_true]
-    exact ⟨by simp [Z], ih (fun b hb => hd b (by simp [hb])) (fun b hb => hl b (by simp [hb]))⟩
+    intro run
+    have ih' := ih (fun b hb => hd b (by simp [hb])) (fun b hb => hl b (by simp [hb]))
+    have hc : depthIs a 0 0 = true := by simp [depthIs, hd a (by simp), Z]
+    simp only [linLex, hc, hl a (by simp) 0 0, Option.isSome_map]
+    split
+    · obtain ⟨lex, hlex⟩ := Option.isSome_iff_exists.mp (ih' [])
+      simp [List.findSome?_cons, hlex]
+    · exact ih' _
+
+theorem linOk_of (l : List Ann) (hd : ∀ a ∈ l, a.d = some Z)
+    (hl : ∀ a ∈ l, ∀ s t, linStep a.ins.op s t = some (s, t)) : linOk 0 0 l = true :=
+  linLex_of l hd hl []
 
 theorem pcsFrom_lay (d : Option Depth) (is : List Instr) (hv : ∀ i ∈ is, i.valid = true) :
     ∀ lo pc, lo ≤ pc → pcsFrom lo (lay d pc is) = true := by
